@@ -105,3 +105,98 @@ Proof.
 Qed.
 
 End names_all.
+
+(* ---------------------------------------------------------------- WHOIS and the invisible user *)
+Section whois_invisible.
+Context (cfg : config) (i : nat).
+
+Definition whois_block (s : shared) (c : conn) (viewer : user) (n : str) : list str :=
+  match whois_one cfg s c (client_name c) viewer n with Ok l => l | Panic _ => [] end.
+
+Lemma whois_fold_concat s c viewer xs : forall acc r,
+  rfold (fun acc n => let! l := whois_one cfg s c (client_name c) viewer n in Ok (acc ++ l)) xs acc = Ok r ->
+  r = acc ++ concat (List.map (whois_block s c viewer) xs).
+Proof.
+  induction xs as [|n xs IH]; intros acc r; cbn [rfold List.map concat].
+  - intros [= <-]. now rewrite app_nil_r.
+  - unfold whois_block at 1. destruct (whois_one cfg s c (client_name c) viewer n) as [l|]; cbn [rbind]; [|discriminate].
+    intros H. rewrite (IH _ _ H). now rewrite app_assoc.
+Qed.
+
+Lemma whois_one_other s c client viewer n m : m <> n ->
+  whois_one cfg (without_user n s) c client viewer m = whois_one cfg s c client viewer m.
+Proof.
+  intros Hne. unfold whois_one, get_user, without_user. cbn [users set_users]. rewrite lookup_delete_ne by congruence. reflexivity.
+Qed.
+
+(* the set of users a WHOIS answers for, as a predicate *)
+Definition whois_targets (us : gmap str user) (masks : list str) : gset str :=
+  let is_wild (m : str) := contains c_star m || contains c_qmark m in
+  let wilds := List.filter is_wild masks in
+  (list_to_set (List.filter (fun m => negb (is_wild m) && is_Some_b (us !! m)) masks) : gset str)
+  ∪ (if is_empty wilds then ∅ else
+     list_to_set (List.filter (fun n => existsb (fun m => wild_match m n) wilds) (List.map fst (map_to_list us)))).
+
+Lemma whois_targets_delete us masks n : whois_targets (delete n us) masks = whois_targets us masks ∖ {[n]}.
+Proof.
+  unfold whois_targets. apply leibniz_equiv. intros x.
+  rewrite elem_of_difference, !elem_of_union, not_elem_of_singleton.
+  assert (forall (m : gmap str user), x ∈ List.map fst (map_to_list m) <-> is_Some (m !! x)) as Hdom.
+  { intros m. rewrite elem_of_list_In, in_map_iff. split.
+    - intros [[k v] [<- Hin]]. apply elem_of_list_In, elem_of_map_to_list in Hin. cbn. eauto.
+    - intros [v Hv]. exists (x, v). split; [reflexivity|]. apply elem_of_list_In, elem_of_map_to_list. exact Hv. }
+  assert (forall (m : gmap str user), is_Some_b (m !! x) = true <-> is_Some (m !! x)) as Hb.
+  { intros m. destruct (m !! x); cbn; split; intros H; eauto; try discriminate. destruct H; discriminate. }
+  destruct (is_empty (List.filter _ masks)).
+  - rewrite !elem_of_list_to_set, !elem_of_list_In, !filter_In, !andb_true_iff, !Hb. rewrite !elem_of_empty.
+    destruct (decide (x = n)) as [->|Hne].
+    + rewrite lookup_delete. split; [intros [[_ [_ [v Hv]]]|[]]; discriminate|intros [_ Hn]; congruence].
+    + rewrite lookup_delete_ne by congruence. tauto.
+  - rewrite !elem_of_list_to_set, !elem_of_list_In, !filter_In, !andb_true_iff, !Hb, <- !elem_of_list_In, !Hdom.
+    destruct (decide (x = n)) as [->|Hne].
+    + rewrite lookup_delete. split; [intros [[_ [_ [v Hv]]]|[[v Hv] _]]; discriminate|intros [_ Hn]; congruence].
+    + rewrite lookup_delete_ne by congruence. tauto.
+Qed.
+
+(* WHOIS - explicit nicks, comma lists, wildcard masks - from a client sharing no channel with the invisible user: the same
+   lines, up to the order of the answered users, as in the world where the user is not connected *)
+Theorem whois_hides_invisible s c nick viewer masks n u r r' :
+  c_nick c = Some nick -> users s !! nick = Some viewer -> n <> nick -> users s !! n = Some u ->
+  um_invisible (u_modes u) = true -> sets_disjoint (u_chans u) (u_chans viewer) = true ->
+  process_whois cfg i s c None masks = Ok r -> process_whois cfg i (without_user n s) c None masks = Ok r' ->
+  exists body body', body ≡ₚ body' /\
+    h_out r = mine cfg i (body ++ [rpl_endofwhois (client_name c) (Str.join [c_comma] masks)]) /\
+    h_out r' = mine cfg i (body' ++ [rpl_endofwhois (client_name c) (Str.join [c_comma] masks)]).
+Proof.
+  intros Hn Hv Hne Hu Hi Hd. unfold process_whois, own_nick, get_user. rewrite Hn. cbn [rbind].
+  unfold without_user at 1. cbn [users set_users]. rewrite lookup_delete_ne by congruence. rewrite Hv. cbn [rbind].
+  fold (whois_targets (users s) masks). 
+  change (users (without_user n s)) with (delete n (users s)). fold (whois_targets (delete n (users s)) masks).
+  rewrite whois_targets_delete.
+  destruct (rfold _ (elements (whois_targets (users s) masks)) []) as [b1|] eqn:E1; cbn [rbind]; [|discriminate]. intros [= <-].
+  destruct (rfold _ (elements (whois_targets (users s) masks ∖ {[n]})) []) as [b2|] eqn:E2; cbn [rbind]; [|discriminate]. intros [= <-].
+  cbn [h_out]. exists b1, b2. split; [|split; reflexivity].
+  apply whois_fold_concat in E1. cbn [app] in E1.
+  assert (b2 = concat (List.map (whois_block s c viewer) (elements (whois_targets (users s) masks ∖ {[n]})))) as E2'.
+  { assert (forall xs acc r0, Forall (fun m => m <> n) xs ->
+              rfold (fun acc m => let! l := whois_one cfg (without_user n s) c (client_name c) viewer m in Ok (acc ++ l)) xs acc = Ok r0 ->
+              r0 = acc ++ concat (List.map (whois_block s c viewer) xs)) as G.
+    { induction xs as [|m xs IH]; intros acc r0 Hall; cbn [rfold List.map concat].
+      - intros [= <-]. now rewrite app_nil_r.
+      - inversion Hall as [|? ? Hm Hxs]; subst. rewrite (whois_one_other s c (client_name c) viewer n m Hm).
+        unfold whois_block at 1. destruct (whois_one cfg s c (client_name c) viewer m) as [l|]; cbn [rbind]; [|discriminate].
+        intros H. rewrite (IH _ _ Hxs H). now rewrite app_assoc. }
+    apply (G _ [] b2); [|exact E2]. apply Forall_forall. intros m Hm. apply elem_of_elements in Hm. set_solver. }
+  subst b1 b2. set (X := whois_targets (users s) masks).
+  destruct (decide (n ∈ X)) as [Hin|Hnin].
+  - assert (elements X ≡ₚ n :: elements (X ∖ {[n]})) as P.
+    { rewrite <- (elements_union_singleton (X ∖ {[n]}) n) by set_solver.
+      apply elements_proper. apply set_equiv. intros y. destruct (decide (y = n)); set_solver. }
+    rewrite <- !flat_map_concat_map. rewrite (Permutation_flat_map (whois_block s c viewer) P). cbn [flat_map].
+    unfold whois_block at 1.
+    assert (whois_one cfg s c (client_name c) viewer n = Ok []) as ->; [|reflexivity].
+    unfold whois_one, get_user. rewrite Hu. cbn [rbind]. now rewrite Hi, Hd.
+  - assert (X ∖ {[n]} = X) as -> by (apply leibniz_equiv; set_solver). reflexivity.
+Qed.
+
+End whois_invisible.
